@@ -138,9 +138,70 @@ def _expected_ok(observed, data_b, comments):
     return all(l.startswith(b'#') for l in head.splitlines()) and head.endswith(b'\n')
 
 
+def run_callback(scn):
+    """CallbackWriter: dry-run must not reach the user callback; a failing callback surfaces as the writer error;
+    a normal return means the callback got exactly the text."""
+    from pysmi import error
+    from pysmi.writer.callback import CallbackWriter
+    viol = []
+    got = []
+    w = core.World()
+
+    def cb(name, data, ctx):
+        got.append((name, data, ctx))
+        if name in scn.get('cb_fail', ()):
+            raise scn_exc(scn.get('cb_exc', 'RuntimeError'))
+    wr = CallbackWriter(cb, cbCtx='ctx')
+    outcomes = []
+    with w:
+        for i, op in enumerate(scn['ops']):
+            w.begin_op(i, op['name'])
+            n0 = len(got)
+            text = make_text('cb%d' % i, op['size'], op.get('kind', 'ascii'))
+            try:
+                wr.putData(op['name'], text, dryRun=bool(op.get('dryRun')))
+                res = 'ok'
+            except error.PySmiWriterError:
+                res = 'writer-error'
+            except BaseException as e:  # noqa
+                res = 'foreign:%s' % type(e).__name__
+            w.end_op(res)
+            outcomes.append(res)
+            calls = got[n0:]
+            if op.get('dryRun'):
+                if calls:
+                    viol.append({'clause': 'C13.6-dryrun', 'key': 'C13.6-dryrun|callback', 'facts': {'what': 'callback', 'writer': 'callback'},
+                                 'message': 'CallbackWriter invoked the user callback in dry-run mode'})
+                if res != 'ok':
+                    viol.append({'clause': 'C13.6-dryrun', 'key': 'C13.6-dryrun|callback-raise', 'facts': {'what': 'callback-raise', 'writer': 'callback'},
+                                 'message': 'CallbackWriter dry-run raised %s' % res})
+                continue
+            failing = op['name'] in scn.get('cb_fail', ())
+            if failing and res != 'writer-error':
+                viol.append({'clause': 'C13.3-writer-error', 'key': 'C13.3-writer-error|callback', 'facts': {'what': 'callback', 'writer': 'callback', 'exception': res},
+                             'message': 'a failing user callback surfaced as %s, not the writer error' % res})
+            if not failing:
+                if res != 'ok':
+                    viol.append({'clause': 'C13.3-writer-error', 'key': 'C13.3-writer-error|callback-spurious', 'facts': {'what': 'callback-spurious', 'writer': 'callback'},
+                                 'message': 'CallbackWriter raised %s although the callback succeeded' % res})
+                if len(calls) != 1 or calls[0] != (op['name'], text, 'ctx'):
+                    viol.append({'clause': 'C13.4-success-means-stored', 'key': 'C13.4-success-means-stored|callback', 'facts': {'what': 'callback', 'writer': 'callback'},
+                                 'message': 'CallbackWriter returned normally but the callback was called %d times / with other arguments' % len(calls)})
+    fp, fph = w.fingerprints(extra=outcomes)
+    return {'violations': viol, 'sig': json.dumps(['callback', outcomes, [bool(o.get('dryRun')) for o in scn['ops']]]), 'nontrivial': len(scn['ops']) >= 2 or bool(scn.get('cb_fail')),
+            'events': len(w.log), 'sim_s': 0, 'fired': {'callback-raises:%s' % scn.get('cb_exc', ''): 1} if scn.get('cb_fail') else {}, 'probes': {'callback-writer-world': 1},
+            'fp': fp, 'fph': fph, 'comps': {'CallbackWriter.putData(real)': len(scn['ops'])}, 'outcomes': outcomes}
+
+
+def scn_exc(name):
+    return {'RuntimeError': RuntimeError('cb'), 'OSError': OSError(5, 'cb'), 'ValueError': ValueError('cb'), 'KeyError': KeyError('cb')}.get(name, RuntimeError('cb'))
+
+
 def run(scn):
     if scn.get('mode') == 'compile':
         return _run_compile(scn)
+    if scn.get('mode') == 'callback':
+        return run_callback(scn)
     from pysmi import error
     root = core.new_root('c13')
     viol = []
@@ -436,6 +497,11 @@ def generate(rng, tier):
     if mode == 'compile':
         from verif.engines import compile_sim as cs
         return cs.gen_dry_world(rng, tier)
+    if rng.random() < 0.04:
+        names_ = ['MOD-A', 'MOD-B']
+        return {'mode': 'callback', 'writer': 'callback', 'dest': 'none',
+                'ops': [{'name': rng.choice(names_), 'size': rng.choice([0, 1, 100]), 'kind': rng.choice(['ascii', 'utf8']), 'dryRun': rng.random() < 0.3} for _ in range(rng.choice([1, 2, 3]))],
+                'cb_fail': [rng.choice(names_)] if rng.random() < 0.4 else [], 'cb_exc': rng.choice(['RuntimeError', 'OSError', 'ValueError', 'KeyError'])}
     wk = rng.choice(WRITERS)
     dest = rng.choice(DESTS)
     names = ['MOD-A', 'MOD-B', 'Mod-c'][:rng.choice([1, 1, 2, 3])]
@@ -520,6 +586,13 @@ def size(scn):
 
 
 def shrink(scn):
+    if scn.get('mode') == 'callback':
+        for i in range(len(scn['ops'])):
+            if len(scn['ops']) > 1:
+                s = copy.deepcopy(scn)
+                del s['ops'][i]
+                yield s
+        return
     if scn.get('mode') == 'compile':
         from verif.engines import compile_sim as cs
         for c in cs.shrink_dry_world(scn):
